@@ -45,6 +45,8 @@ TRUSTED = [
     ("N-broadcast", "array - vector subtracts the vector from every row; scalar * array scales every entry; array[i] is row i"),
     ("E-earcut", "mapbox_earcut.triangulate_float64(vertices, rings) -- vertices = the polygon's rings one after the other (each without its closing point), rings = the cumulative end offsets, exterior first -- returns 3k indices into `vertices`: the k = n + 2h - 2 triangles (vertices[i0], vertices[i1], vertices[i2]) lie inside the polygon, overlap only in edges and their union is the polygon (their areas sum to its area)"),
     ("T-ray", "mesh.ray.intersects_location(origins, directions, multiple_hits=False) returns the first hit of each ray that hits the mesh, in the order of the rays; a hit of ray (o, d) is o + t d with t >= 0"),
+    ("G-affine", "shapely.affinity.affine_transform(g, [a, b, d, e, xoff, yoff]) is the image of g under (x, y) -> (a x + b y + xoff, d x + e y + yoff); a polygon maps to the polygon over the images of its vertices in the same order"),
+    ("N-where", "numpy.where(mask) of a 2-d Boolean array returns (row indices, column indices) of exactly the true entries, each once, in row-major order"),
     ("N-reduce", "numpy.all / any / max reduce over all entries; array > scalar compares entry-wise; ndarray - Vector converts the Vector to a length-3 array and broadcasts"),
     ("T-bounds", "every point of a trimesh mesh lies within mesh.bounds; extents = bounds[1] - bounds[0]; bounding_box.center_mass is the midpoint of the bounds"),
     ("A2-pythagoras", "sin(x)^2 + cos(x)^2 = 1"),
@@ -67,6 +69,7 @@ def install(reg):
     reg.len_fallback = _len_fallback
     reg.iterate_fallback = _iterate_fallback
     reg.compare_fallback = _compare_fallback
+    _install_array_equality()
     for dn, sym in (("__rsub__", "-"), ("__radd__", "+")):
         def reflected(I, self, other, dn=dn, sym=sym):
             if isinstance(other, NDArr):  # ndarray.__sub__(Vector): the Vector is converted to an array (it is a Sequence)
@@ -351,6 +354,18 @@ def ring_polygon(I, exterior, holes=(), tag="polygon"):
     return g
 
 
+def line_geom(I, pts, tag="linestring"):
+    """shapely LineString through the given coordinate tuples (2 or 3 coordinates each): an abstract 1-dimensional point
+    set that contains its vertices, with `.coords` = the coordinates as given (shapely reports them in order)."""
+    pts = [tuple(p) for p in pts]
+    g = make_geom(I, "LineString", empty=False, tag=tag)
+    g.fields["coords"] = tuple(pts)
+    for p in pts:
+        world(I).add_point(p[0], p[1])
+        I.eng.assume(gmem(g, p[0], p[1]))
+    return g
+
+
 def _forms_for(da, db):
     lo = min(da, db)
     if lo == 2:
@@ -590,6 +605,20 @@ def _make_shapely(I):
                     return u
             if kind == "Point":
                 return point_geom(I, args[0] if len(args) == 1 else args)
+            if kind == "Polygon" and len(args) == 1 and not kwargs and not is_geom(args[0]):
+                try:
+                    cs = [tuple(BM.iterate(I, p)) for p in BM.iterate(I, args[0])]
+                except Exception:
+                    cs = None
+                if cs and len(cs) >= 3 and all(len(c) == 2 and all(is_scalar(x) for x in c) for c in cs):
+                    return ring_polygon(I, cs)
+            if kind == "LineString" and len(args) == 1 and not is_geom(args[0]):
+                try:
+                    cs = [tuple(BM.iterate(I, p)) for p in BM.iterate(I, args[0])]
+                except Exception:
+                    cs = None
+                if cs and all(len(c) in (2, 3) and all(is_scalar(x) for x in c) for c in cs):
+                    return line_geom(I, cs)
             # a geometry built from explicit coordinates: an abstract base geometry of that kind
             return make_geom(I, kind, empty=False, tag=kind.lower())
 
@@ -624,10 +653,25 @@ def _make_shapely(I):
             coords = (coords,) + tuple(rest)
         return point_geom(I, BM.iterate(I, coords))
 
+    def affine_transform(geom, matrix):
+        """shapely.affinity.affine_transform(g, [a, b, d, e, xoff, yoff]) (G-affine): image of g under
+        (x, y) -> (a x + b y + xoff, d x + e y + yoff); a polygon given by its vertex ring maps to the polygon over the
+        images of its vertices, in the same order."""
+        m = BM.iterate(I, matrix)
+        if len(m) != 6 or not is_geom(geom) or "_rings" not in geom.fields or geom.fields["_rings"][1]:
+            raise PyvcError("affine_transform: only the 2-d matrix form on a polygon given by its exterior ring is modelled")
+        a, b, d, e, xo, yo = m
+        img = lambda p: (arith("+", arith("+", arith("*", a, p[0]), arith("*", b, p[1])), xo), arith("+", arith("+", arith("*", d, p[0]), arith("*", e, p[1])), yo))
+        out = ring_polygon(I, [img(p) for p in geom.fields["_rings"][0]], tag=geom.tag + ".affine")
+        out.fields["_affine_of"] = (geom, tuple(m))
+        return out
+
+    affinity = NativeModule("shapely.affinity", {"affine_transform": BuiltinFn("affine_transform", affine_transform)})
     ops = NativeModule("shapely.ops", {"unary_union": BuiltinFn("unary_union", unary_union)})
     attrs = {
         "geometry": geometry,
         "ops": ops,
+        "affinity": affinity,
         "prepare": BuiltinFn("prepare", lambda g: None),
         "distance": BuiltinFn("distance", s_distance),
         "intersects_xy": BuiltinFn("intersects_xy", intersects_xy),
@@ -728,6 +772,22 @@ def _compare_fallback(I, sym, a, b):
 
 # ------------------------------------------------------------------------------------------------
 # numpy
+
+
+def _install_array_equality():
+    """`array == scalar` / `array != scalar` are entry-wise (N-reduce), like the ordering comparisons routed through
+    `_compare_fallback`; every other `==` keeps the interpreter's meaning."""
+    if getattr(BM, "_ndarr_eq_installed", False):
+        return
+    BM._ndarr_eq_installed = True
+    orig = BM.equal_values
+
+    def equal_values(I, a, b):
+        if (isinstance(a, NDArr) and is_scalar(b)) or (isinstance(b, NDArr) and is_scalar(a)):
+            return _compare_fallback(I, "==", a, b)
+        return orig(I, a, b)
+
+    BM.equal_values = equal_values
 
 
 class NDArr:
@@ -987,6 +1047,22 @@ def _make_numpy(I):
         step = A.shape[0] // n
         return PList([NDArr((step,) + A.shape[1:], [list(r) if isinstance(r, list) else r for r in A.data[j * step : (j + 1) * step]]) for j in range(n)])
 
+    def np_where(cond, *rest):
+        """numpy.where(mask) of a 2-d Boolean array: (row indices, column indices) of the true entries in row-major order (N-where)"""
+        if rest:
+            raise PyvcError("numpy.where(cond, x, y) not modelled")
+        A = to_ndarr(I, cond)
+        if len(A.shape) != 2:
+            raise PyvcError("numpy.where of a non-2-d array not modelled")
+        rows, cols = [], []
+        for r in range(A.shape[0]):
+            for c in range(A.shape[1]):
+                v = A.data[r][c]
+                if (v is True) or (v is not False and I.eng.branch(tobool(v))):
+                    rows.append(r)
+                    cols.append(c)
+        return (NDArr((len(rows),), rows), NDArr((len(cols),), cols))
+
     linalg = NativeModule("numpy.linalg", {"norm": BuiltinFn("numpy.linalg.norm", norm)})
     nd = BuiltinFn("numpy.ndarray", lambda *a, **k: (_ for _ in ()).throw(PyvcError("numpy.ndarray() not modelled")))
     nd.pytype = NDArr
@@ -1005,6 +1081,7 @@ def _make_numpy(I):
             "any": BuiltinFn("numpy.any", np_any),
             "max": BuiltinFn("numpy.max", np_max),
             "ndarray": nd,
+            "where": BuiltinFn("numpy.where", np_where),
             "newaxis": None,
         },
     )
